@@ -293,13 +293,23 @@ func c07r2(c *Ctx) {
 			}
 			return call
 		}
-		cutsSuccess := func(call ssa.CallInstruction) bool {
+		cutsSuccessIn := func(env *Env, call ssa.CallInstruction) bool {
 			pred := func(f Fact) bool { return !f.Lin && f.Pos && f.Call == call && strings.HasPrefix(f.Atom, "ok:") }
-			for _, ret := range returnsOf(g.fn) {
+			for _, ret := range returnsOf(env.Fn) {
 				if isSuccessReturn(ret) {
-					if _, ok := ge.CutAt(ret, pred, nil); !ok {
+					if _, ok := env.CutAt(ret, pred, nil); !ok {
 						return false
 					}
+				}
+			}
+			return true
+		}
+		cutsSuccess := func(call ssa.CallInstruction) bool { return cutsSuccessIn(ge, call) }
+		// a role operation inside nested helpers lies on every successful path when each call of its chain does, in its own function
+		chainCutsSuccess := func(rc roleCall) bool {
+			for _, l := range rc.chain {
+				if !cutsSuccessIn(l.env, l.call) {
+					return false
 				}
 			}
 			return true
@@ -348,7 +358,7 @@ func c07r2(c *Ctx) {
 			for _, rcall := range roleOps {
 				switch {
 				case rcall.acct == x.dst && rcall.deletes:
-					if cutsSuccess(rcall.call) {
+					if chainCutsSuccess(rcall) {
 						removed = true
 					}
 				case rcall.acct != x.dst && rcall.adds:
@@ -408,7 +418,7 @@ func c07r2(c *Ctx) {
 			}
 			added := false
 			for _, rcall := range roleOps {
-				if rcall.acct == x.dst && rcall.adds && cutsSuccess(rcall.call) {
+				if rcall.acct == x.dst && rcall.adds && chainCutsSuccess(rcall) {
 					added = true
 				}
 			}
@@ -426,10 +436,20 @@ type roleCall struct {
 	acct    string
 	deletes bool
 	adds    bool
+	chain   []callLevel // the calls leading from the routine down to the role operation, outermost first
+}
+
+type callLevel struct {
+	env  *Env
+	call ssa.CallInstruction
 }
 
 // roleCalls: calls in env's function whose callee rewrites a role list (reaches SaveKeyValue) and deletes resp. appends the given role constant.
 func roleCalls(p *Prog, e *Env, role string) []roleCall {
+	return roleCallsRec(p, e, role, nil, 0)
+}
+
+func roleCallsRec(p *Prog, e *Env, role string, above []callLevel, depth int) []roleCall {
 	var out []roleCall
 	q := fmt.Sprintf("%q", role)
 	for _, b := range e.Fn.Blocks {
@@ -448,11 +468,16 @@ func roleCalls(p *Prog, e *Env, role string) []roleCall {
 					acct = e.Term(a)
 				}
 			}
+			sub := e.Sub(call, sc)
+			chain := append(append([]callLevel{}, above...), callLevel{e, call})
 			if acct == "" {
+				// a helper that obtains the account itself (extracted routine): look inside
+				if depth < 3 && reachesInvoke(p, sc, "AccountDataHandler.SaveKeyValue", 0) {
+					out = append(out, roleCallsRec(p, sub, role, chain, depth+1)...)
+				}
 				continue
 			}
-			sub := e.Sub(call, sc)
-			rc := roleCall{call: call, acct: acct}
+			rc := roleCall{call: call, acct: acct, chain: chain}
 			savesRoles := false
 			for _, bb := range sc.Blocks {
 				for _, i2 := range bb.Instrs {
@@ -477,6 +502,8 @@ func roleCalls(p *Prog, e *Env, role string) []roleCall {
 			}
 			if savesRoles && (rc.adds || rc.deletes) {
 				out = append(out, rc)
+			} else if depth < 3 && reachesInvoke(p, sc, "AccountDataHandler.SaveKeyValue", 0) {
+				out = append(out, roleCallsRec(p, sub, role, chain, depth+1)...)
 			}
 		}
 	}
